@@ -186,4 +186,188 @@ Section Glue.
 
   Lemma rel_in_pend g s p : Rel g s -> in_pend s (idn p) = RM.is_pending p (RM.pending g).
   Proof. intros R. unfold in_pend. rewrite (rel_pend g s R). apply abs_pend_in_pend. Qed.
+  (* ---------------------------------------------------------------- 3. GC_Rem and dealloc(destruct) *)
+  Local Notation Crem := (RM.gc_rem hashf gc_swap gc_primes gc_load_num gc_load_den (RP.d_owns d) (RP.d_spawns d) true).
+  Local Notation Cfinw := (RM.finalise_with hashf gc_swap gc_primes gc_load_num gc_load_den (RP.d_owns d) (RP.d_spawns d)).
+  Local Notation Cless := (RM.resize_less hashf gc_swap gc_primes gc_load_num gc_load_den).
+
+  (* with Box-like destructors, dealloc(destruct(q)) of C17 is: log, then at most one GC_Rem *)
+  Lemma cfinw_eq rem g q :
+    Cfinw rem g q = match RP.d_owns d q with
+                    | [] => Some (RM.log g (RM.EvFin q))
+                    | t :: _ => rem (RM.log g (RM.EvFin q)) t
+                    end.
+  Proof.
+    unfold RM.finalise_with. rewrite nospawn. simpl.
+    destruct (boxlike q) as [-> | [t ->]]; reflexivity.
+  Qed.
+
+  Lemma tab_fields g g' :
+    RM.slots g' = RM.slots g -> RM.nitems g' = RM.nitems g ->
+    (RM.pending g = [] -> RM.pending g' = []) -> Tab g -> Tab g'.
+  Proof.
+    intros Hs Hn Hp T. constructor; unfold RM.nslots in *; rewrite ?Hs, ?Hn; try apply T.
+    intros Hz. apply Hp. apply (t_empty g T). exact Hz.
+  Qed.
+
+  Lemma rel_fields g g' s :
+    (forall x, Holds (RM.slots g') x <-> Holds (RM.slots g) x) -> RM.pending g' = RM.pending g ->
+    RM.running g' = RM.running g -> RM.mitems g' = RM.mitems g ->
+    (forall p, cnt_fin p (RM.evs g') = cnt_fin p (RM.evs g)) -> Rel g s -> Rel g' s.
+  Proof.
+    intros Hh Hp Hr Hm He R. constructor; try apply R.
+    - intros x r. rewrite (rel_reg g s R), !in_abs_reg. split; intros [e [H1 H2]]; exists e; split; auto; apply Hh; exact H1.
+    - rewrite Hp. apply R.
+    - rewrite Hr. apply R.
+    - rewrite Hm. apply R.
+    - intros p. rewrite He. apply R.
+  Qed.
+
+  Lemma tab_resize_less g : Tab g ->
+    exists l', Cless g = Some (RM.set_slots g l') /\ Tab (RM.set_slots g l') /\
+               (forall x, Holds l' x <-> Holds (RM.slots g) x).
+  Proof.
+    intros T. unfold RM.resize_less.
+    destruct (Nat.ltb_spec (RM.ideal gc_primes gc_load_num gc_load_den (RM.nitems g)) (RM.nslots g)) as [Hlt|Hge].
+    - pose proof (RP.gc_ideal_gt (RM.nitems g)) as Hid.
+      destruct (RP.g_rehash_ok hashf gc_swap RP.gc_swap_le RP.gc_swap_ge g
+                  (RM.ideal gc_primes gc_load_num gc_load_den (RM.nitems g))) as [l' [Hr [Hc' [Hlen [Hh Ho]]]]].
+      + apply T.
+      + apply T.
+      + rewrite <- (t_count g T). unfold RM.ideal. lia.
+      + unfold RM.ideal. lia.
+      + exists l'. split; [exact Hr|]. split; [|exact Hh].
+        constructor; simpl.
+        * exact Hc'.
+        * rewrite Ho. apply T.
+        * right. unfold RM.nslots. simpl. rewrite Hlen. exact Hid.
+        * intros e He. apply (t_clear g T). apply Hh. exact He.
+        * unfold RM.nslots. simpl. rewrite Hlen. unfold RM.ideal. lia.
+    - exists (RM.slots g). destruct g; simpl. split; [reflexivity|]. split; [exact T | tauto].
+  Qed.
+
+  (* a finaliser of the life-cycle machine that is good (FinOK) and matches C17's
+     dealloc(destruct(.)) whose nested removals have fuel f *)
+  Definition FinSim (fin : st -> nat -> st) (n f : nat) : Prop :=
+    FinOK fin n /\
+    forall A g s q g', Tab g -> Rel g s -> GInv A s ->
+      ~ In (idn q) (regids s) -> ~ In (idn q) (pids s) -> fin_count s (idn q) = 0 -> info s (idn q) <> None ->
+      measure s < n ->
+      Cfinw (Crem f) g q = Some g' -> Tab g' /\ Rel g' (fin s (idn q)).
+
+  Lemma cnt_fin_log_other g e p : (forall q, e <> RM.EvFin q) -> cnt_fin p (RM.evs (RM.log g e)) = cnt_fin p (RM.evs g).
+  Proof. intros H. simpl. destruct e; try reflexivity. exfalso. apply (H p0). reflexivity. Qed.
+
+  (* the tail of GC_Rem: GC_Resize_Less and the mitems rule *)
+  Lemma sim_rem_tail A g1 s1 g' :
+    Tab g1 -> Rel g1 s1 -> GInv A s1 ->
+    match Cless g1 with None => None | Some g2 => Some (RM.new_mitems g2) end = Some g' ->
+    Tab g' /\ Rel g' (set_mitems (mitems_rule (nitems s1)) s1).
+  Proof.
+    intros T R G H. destruct (tab_resize_less g1 T) as [l' [Hr [T2 Hh]]]. rewrite Hr in H.
+    inversion H; subst g'. clear H. split.
+    - apply (tab_fields (RM.set_slots g1 l')); auto.
+    - pose proof (rel_len g1 s1 T R (g_reg_nodup _ _ G)) as Hlen.
+      assert (R2 : Rel (RM.set_slots g1 l') s1) by (apply (rel_fields g1); auto).
+      constructor; try apply R2. simpl. unfold mitems_rule, nitems. rewrite Hlen. reflexivity.
+  Qed.
+
+  Lemma sim_rem_step fin n f : FinSim fin n f -> forall A g s p g',
+    Tab g -> Rel g s -> GInv A s -> measure s < n ->
+    Crem (S f) g p = Some g' -> Tab g' /\ Rel g' (gc_rem true fin s (idn p)).
+  Proof.
+    intros [HF HS] A g s p g' T R G Hm H.
+    cbn [RM.gc_rem] in H.
+    destruct (RM.running g) eqn:Hrun; simpl negb in H; cbv iota in H.
+    2:{ inversion H; subst. unfold gc_rem. rewrite (rel_run g' s R), Hrun. simpl. auto. }
+    set (gl := RM.log g (RM.EvRem p)) in *.
+    assert (Tl : Tab gl) by (apply (tab_fields g); auto).
+    assert (Rl : Rel gl s).
+    { apply (rel_fields g); try reflexivity; auto; intros x; tauto. }
+    match type of H with match ?x with _ => _ end = _ => destruct x as [g1|] eqn:Hap; [|discriminate] end.
+    cut (exists s1, Tab g1 /\ Rel g1 s1 /\ GInv A s1 /\
+           gc_rem true fin s (idn p) = set_mitems (mitems_rule (nitems s1)) s1).
+    { intros [s1 [T1 [R1 [G1 Heq]]]]. rewrite Heq.
+      unfold gc_rem in Heq. eapply sim_rem_tail; eauto. }
+    unfold gc_rem. rewrite (rel_run g s R), Hrun. simpl negb. cbv iota.
+    change (RM.nslots gl) with (RM.nslots g) in Hap. change (RM.pending gl) with (RM.pending g) in Hap.
+    destruct (Nat.eqb_spec (RM.nslots g) 0) as [Hz|Hnz].
+    - (* nothing was ever registered *)
+      inversion Hap; subst g1. exists s. split; [exact Tl|]. split; [exact Rl|]. split; [exact G|].
+      assert (Hpe : RM.pending g = []) by (apply (t_empty g T); exact Hz).
+      assert (Hnr : in_reg s (idn p) = false).
+      { destruct (in_reg s (idn p)) eqn:E; [|reflexivity]. apply (rel_in_reg g s p R) in E.
+        destruct E as [r [e [[i [h Hat]] _]]]. pose proof (at_some_lt _ _ _ _ Hat). unfold RM.nslots in Hz. lia. }
+      rewrite (rel_in_pend g s p R), Hpe, Hnr. reflexivity.
+    - rewrite (rel_in_pend g s p R).
+      set (g0 := RM.set_pending gl (RM.null_out p (RM.pending g))) in *.
+      destruct (RM.is_pending p (RM.pending g)) eqn:Hhit; simpl andb in Hap; cbv iota in Hap.
+      + (* found in the pending list of the running sweep: finalised from there *)
+        assert (Hin : In (idn p) (pids s)) by (apply in_pend_spec; rewrite (rel_in_pend g s p R); exact Hhit).
+        destruct (null_pend_ok A s (idn p) G Hin) as (G1 & N1 & N2 & F0 & M1 & R1 & I1 & D1 & T1 & B1 & O1 & L1 & Rg1 & P1 & K1).
+        set (s' := set_pend (null_pend (idn p) (pend s)) s) in *.
+        assert (T0 : Tab g0).
+        { apply (tab_fields gl); auto. intros Hpe. simpl in Hpe. simpl. change (RM.pending gl) with (RM.pending g) in Hpe. rewrite Hpe. reflexivity. }
+        assert (R0 : Rel g0 s').
+        { constructor; try apply Rl.
+          - unfold s'. simpl. rewrite (rel_pend g s R). apply abs_pend_null. }
+        assert (Hinf : info s' (idn p) <> None) by (rewrite I1; apply (g_info _ _ G); right; exact Hin).
+        destruct (HS A g0 s' p g1 T0 R0 G1 N1 N2 F0 Hinf ltac:(unfold measure in *; lia) Hap) as [Tg1 Rg1'].
+        destruct (HF A s' (idn p) G1 N1 N2 F0 Hinf ltac:(unfold measure in *; lia)) as (G2 & _).
+        exists (fin s' (idn p)). split; [exact Tg1|]. split; [exact Rg1'|]. split; [exact G2 | reflexivity].
+      + (* table lookup *)
+        change (RM.slots g0) with (RM.slots g) in Hap. change (RM.nslots g0) with (RM.nslots g) in Hap.
+        change (RM.nitems g0) with (RM.nitems g) in Hap.
+        assert (T0 : Tab g0).
+        { apply (tab_fields gl); auto. intros Hpe. simpl. change (RM.pending gl) with (RM.pending g) in Hpe. rewrite Hpe. reflexivity. }
+        assert (Hnull : RM.null_out p (RM.pending g) = RM.pending g).
+        { clear -Hhit. unfold RM.is_pending in Hhit. unfold RM.null_out.
+          induction (RM.pending g) as [|[q|] pl IH]; simpl in *; auto.
+          - apply orb_false_iff in Hhit. destruct Hhit as [H1 H2]. rewrite H1, (IH H2). reflexivity.
+          - rewrite (IH Hhit). reflexivity. }
+        assert (R0 : Rel g0 s).
+        { apply (rel_fields gl); try reflexivity; auto; try (intros x; tauto). }
+        destruct (find_spec N gentry N.eqb RM.ptr N.eqb_eq (fun q => RM.home hashf q (length (RM.slots g))) (RM.slots g) p (t_core g T))
+          as [r [Hr Hres]].
+        { apply RP.home_lt. unfold RM.nslots in Hnz. lia. }
+        unfold RM.rh_find, RM.nslots in Hap. rewrite Hr in Hap. destruct r as [i|].
+        * destruct Hres as [e [Hat Hpe]].
+          assert (Hocc : occupied (RM.slots g) < length (RM.slots g)).
+          { pose proof (t_room g T) as Hroom. pose proof (t_count g T). unfold RM.nslots in *. lia. }
+          destruct (delete_at_spec N gentry RM.ptr _ (RM.slots g) i _ e (t_core g T) Hat Hocc)
+            as [l1 [Hd [Hc1 [Hlen1 [Hh1 Ho1]]]]].
+          unfold RM.rh_delete in Hap. rewrite Hd in Hap.
+          set (gd := RM.set_nitems (RM.set_slots g0 l1) (pred (RM.nitems g))) in *.
+          assert (Hreg : In (idn p) (regids s)).
+          { apply in_reg_spec. apply (rel_in_reg g s p R). exists (RM.root e), e. split; [exists i, (RM.home hashf p (length (RM.slots g))); exact Hat | auto]. }
+          assert (Hir : in_reg s (idn p) = true) by (apply in_reg_spec; exact Hreg).
+          rewrite Hir.
+          destruct (rem_reg_ok A s (idn p) G Hreg) as (G1 & N1 & N2 & F0 & M1 & R1 & I1 & D1 & T1 & B1 & O1 & L1 & Pd1 & Rg1 & K1).
+          set (s' := set_reg (rem_reg (idn p) (reg s)) s) in *.
+          assert (Td : Tab gd).
+          { constructor; simpl.
+            - unfold RP.Core. rewrite Hlen1. exact Hc1.
+            - pose proof (t_count g T). lia.
+            - unfold RM.nslots. simpl. rewrite Hlen1. pose proof (t_count g T). right. lia.
+            - intros x Hx. apply (t_clear g T). apply Hh1 in Hx. tauto.
+            - unfold RM.nslots. simpl. rewrite Hlen1. intros Hz. unfold RM.nslots in Hnz. contradiction. }
+          assert (Rd : Rel gd s').
+          { constructor; try apply R0.
+            - intros x r. unfold s'. simpl reg. unfold rem_reg. rewrite filter_In. simpl fst.
+              rewrite (rel_reg g s R), !in_abs_reg. split.
+              + intros [[x0 [Hx0 [Hi0 Hr0]]] Hne]. exists x0. split; [|auto]. apply Hh1. split; [exact Hx0|].
+                rewrite Hpe. intros Hp'. apply negb_true_iff, Nat.eqb_neq in Hne. apply Hne. rewrite <- Hi0, Hp'. reflexivity.
+              + intros [x0 [Hx0 [Hi0 Hr0]]]. apply Hh1 in Hx0. destruct Hx0 as [Hx0 Hne]. split; [exists x0; auto|].
+                apply negb_true_iff, Nat.eqb_neq. rewrite <- Hi0. intros Hp'. apply Hne. rewrite Hpe. apply idn_inj. exact Hp'. }
+          assert (Hinf : info s' (idn p) <> None) by (rewrite I1; apply (g_info _ _ G); left; exact Hreg).
+          destruct (HS A gd s' p g1 Td Rd G1 N1 N2 F0 Hinf ltac:(unfold measure in *; lia) Hap) as [Tg1 Rg1'].
+          destruct (HF A s' (idn p) G1 N1 N2 F0 Hinf ltac:(unfold measure in *; lia)) as (G2 & _).
+          exists (fin s' (idn p)). split; [exact Tg1|]. split; [exact Rg1'|]. split; [exact G2 | reflexivity].
+        * inversion Hap; subst g1.
+          assert (Hir : in_reg s (idn p) = false).
+          { destruct (in_reg s (idn p)) eqn:E; [|reflexivity]. apply (rel_in_reg g s p R) in E.
+            destruct E as [r [e [[i [h Hat]] [Hp' _]]]]. exfalso. apply (Hres i h e Hat). exact Hp'. }
+          rewrite Hir. exists s. split; [exact T0|]. split; [exact R0|]. split; [exact G | reflexivity].
+  Qed.
+
 End Glue.
